@@ -197,6 +197,13 @@ ACCESS_FORMS = ['$c.{n}', '$c?.{n}', '$c.{n}()', '$c.{n}(1, a => 2)',
                 'datetime($c)', 'regex($c)', "'a' =~ $c", 'range($c)',
                 '$c.{n} = 1', 'switch($c => 1)', 'coalesce($c)',
                 'assert($c, $.{n})', 'let(x => $c) -> $x.{n}',
+                # failing assertions on the object with a format template as
+                # the message
+                "$c.assert(false, '{{0.{n}}}')",
+                "$c.assert($ = null, '{{0.{n}}} {{0.__class__}}')",
+                "$c.assert(not true, message => '{{0[{n}]}} %({n})s')",
+                "[$c].select($.assert(false, '{{0.{n}.__class__}}'))",
+                "$c.assert(true, '{{0.{n}}}')",
                 '$c -> $.{n}', 'unpack($c)', 'with($c) -> $.{n}',
                 'def(f, $.{n}) -> f($c)', 'yaqlize($c)' if False else
                 'isDict($c)', 'isList($c)', '$c.keys()', '$c.get({n})',
